@@ -131,7 +131,7 @@ type NegScript struct {
 	AuthReply    int      `json:"auth_reply"`
 	AuthCond     string   `json:"auth_cond,omitempty"`
 	ResumeOne    bool     `json:"enabled_resume_spelled_1,omitempty"` // <enabled resume='1'/>: the other legal spelling of an XML boolean
-	AuthFailDrop int      `json:"after_auth_failure,omitempty"` // after <failure/>: 1 = the server ends the stream and closes, 2 = it resets the connection once the client has read the failure
+	AuthFailDrop int      `json:"after_auth_failure,omitempty"`       // after <failure/>: 1 = the server ends the stream and closes, 2 = it resets the connection once the client has read the failure
 	Session      int      `json:"session"`
 	SM           bool     `json:"sm"`
 	Resume       int      `json:"resume_reply"`
